@@ -34,6 +34,18 @@ def fs(x):
 SPECIAL = ("nan", "inf", "-inf")
 
 
+def fl(x):
+    """python float of a case value: 'n/d' string, Fraction, number, or one of 'inf' / '-inf' / 'nan'
+    (a logit of -inf is how a zero-probability class is handed over through `logits=`)"""
+    if isinstance(x, str) and x in SPECIAL:
+        return float(x)
+    return float(F(x))
+
+
+def is_ninf(x):
+    return isinstance(x, str) and x == "-inf"
+
+
 def close(a, b, tol=TOL):
     if (isinstance(a, str) and a in SPECIAL) or (isinstance(b, str) and b in SPECIAL):
         return a == b and a != "nan"
@@ -64,9 +76,9 @@ def build(spec, requires_grad=True):
     fam = spec["fam"]
     th = spec["theta"]
     if fam == "cat2":
-        vals = [[float(F(x)) for x in row] for row in th]
+        vals = [[fl(x) for x in row] for row in th]
     else:
-        vals = [float(F(x)) for x in th]
+        vals = [fl(x) for x in th]
     param = torch.tensor(vals, dtype=torch.float64, requires_grad=requires_grad)
     kw = {spec["param"]: param}
     D = torch.distributions
@@ -168,7 +180,8 @@ def exact_probs(spec):
             pi = [x / S for x in thv]
             J = [[((S if k == j else 0) - thv[k]) / (S * S) for j in range(V)] for k in range(V)]
         else:
-            t = torch.tensor([float(F(x)) for x in row], dtype=torch.float64)
+            t = torch.tensor([fl(x) for x in row], dtype=torch.float64)
+            # a logit of -inf: softmax gives exactly 0.0, and the analytic Jacobian row/column is 0
             pi = [F(x) for x in torch.softmax(t, -1).tolist()]
             J = [[pi[k] * ((1 if k == j else 0) - pi[j]) for j in range(V)] for k in range(V)]
         return pi, J
@@ -197,15 +210,29 @@ def min_marginal(spec):
     rows = th if fam == "cat2" else [th]
     m = 1.0
     for row in rows:
-        t = torch.tensor([float(F(x)) for x in row], dtype=torch.float64)
+        t = torch.tensor([fl(x) for x in row], dtype=torch.float64)
         if fam == "bern":
             p = t if par == "probs" else torch.sigmoid(t)
             q = 1 - t if par == "probs" else torch.sigmoid(-t)
             m = min(m, float(torch.minimum(p, q).min()))
         else:
             p = t / t.sum() if par == "probs" else torch.softmax(t, -1)
+            p = p[p > 0]          # zero-probability classes (logit -inf) are not in the sample space
             m = min(m, float(p.min()))
     return m
+
+
+def has_ninf(spec):
+    th = spec["theta"]
+    flat = [x for r in th for x in r] if spec["fam"] == "cat2" else th
+    return any(is_ninf(x) for x in flat)
+
+
+def support(spec):
+    """indices of the points of positive probability: the sample space proper (a class whose logit
+    is -inf is never drawn)"""
+    P, _ = exact_probs(spec)
+    return [i for i, p in enumerate(P) if p != 0]
 
 
 def n_params(spec):
